@@ -41,7 +41,7 @@ class ProofState():
         prf = self.prf
         try:
             for n in id.id:
-                for item in prf.items[:n+1]:
+                for item in prf.items[:n]:
                     if item.rule == "variable":
                         nm, T = item.args
                         vars[nm] = T
